@@ -148,6 +148,11 @@ func (st *State) newInput(name, kind string, s Sort) *Term {
 	return t
 }
 
+const (
+	floatsSlack    = 2
+	floatsSentinel = -1234.5
+)
+
 func (st *State) floatSort() Sort {
 	if st.realMode() {
 		return SReal
@@ -164,11 +169,16 @@ func (st *State) vxCall(name string, args []Value, fn *ssa.Function) Value {
 		return st.newInput(fmt.Sprintf("%s[%d]", st.cstr(args[0]), st.concreteInt(args[1], "FloatI")), "float", st.floatSort())
 	case "Floats":
 		n := int(st.concreteInt(args[1], "Floats"))
-		cells := make([]Value, n)
-		for i := range cells {
+		// two cells of spare capacity holding a sentinel: an in-place append by the code under test
+		// lands in (frozen) caller memory exactly as it would for a caller's data[:k]
+		cells := make([]Value, n+floatsSlack)
+		for i := 0; i < n; i++ {
 			cells[i] = st.newInput(fmt.Sprintf("%s[%d]", st.cstr(args[0]), i), "float", st.floatSort())
 		}
-		return SliceV{obj: st.newObj(cells, st.cstr(args[0])), len: n, cap: n, esz: 1}
+		for i := n; i < len(cells); i++ {
+			cells[i] = ts.F64(floatsSentinel)
+		}
+		return SliceV{obj: st.newObj(cells, st.cstr(args[0])), len: n, cap: n + floatsSlack, esz: 1}
 	case "Int":
 		return st.newInput(st.cstr(args[0]), "int", SBV64)
 	case "IntI":
@@ -768,7 +778,55 @@ func (st *State) ufMath2(name string, a, b *Term) *Term {
 		// constants stay F64
 	}
 	st.usedUF = true
-	return st.ts.UF("uf_"+name, st.floatSort(), a, b)
+	r := st.ts.UF("uf_"+name, st.floatSort(), a, b)
+	if name == "pow" && st.h.mode == ModeR {
+		st.powContract(r, a, b)
+	}
+	return r
+}
+
+// powContract: real reading of base^y for a constant base > 1, instantiated on occurring applications:
+// positive, base^0 = 1, base^1 = base, strictly increasing in y, and the midpoint law
+// 2y = y1 + y2  =>  (base^y)^2 = base^y1 * base^y2 (what "geometric interpolation" means).
+func (st *State) powContract(r, a, b *Term) {
+	ts := st.ts
+	base, ok := constFloat(a)
+	if !ok || !(base > 1) {
+		return
+	}
+	key := fmt.Sprintf("pow@%v", base)
+	prev := st.ufOcc[key]
+	for _, p := range prev {
+		if p == r {
+			return
+		}
+	}
+	imp := func(p, q *Term) *Term { return ts.Or(ts.Not(p), q) }
+	zero, one, two := ts.RealF(0), ts.RealF(1), ts.RealF(2)
+	ts.Define(r, ts.rcmp(ORLt, zero, r))
+	ts.Define(r, imp(ts.Eq(b, zero), ts.Eq(r, one)))
+	ts.Define(r, imp(ts.Eq(b, one), ts.Eq(r, a)))
+	ts.Define(r, ts.Eq2(ts.rcmp(ORLt, zero, b), ts.rcmp(ORLt, one, r)))
+	for _, p := range prev {
+		pb := p.args[1]
+		ts.Define(r, ts.Eq2(ts.rcmp(ORLt, b, pb), ts.rcmp(ORLt, r, p)))
+		ts.Define(r, ts.Eq2(ts.Eq(b, pb), ts.Eq(r, p)))
+	}
+	all := append(append([]*Term{}, prev...), r)
+	if len(all) <= 4 {
+		for _, m := range all {
+			for i, p := range all {
+				for _, q := range all[i+1:] {
+					if m == p || m == q {
+						continue
+					}
+					mid := ts.Eq(ts.rbin(ORMul, two, m.args[1]), ts.rbin(ORAdd, p.args[1], q.args[1]))
+					ts.Define(r, imp(mid, ts.Eq(ts.rbin(ORMul, m, m), ts.rbin(ORMul, p, q))))
+				}
+			}
+		}
+	}
+	st.ufOcc[key] = append(prev, r)
 }
 
 func (st *State) bitsCall(name string, args []Value) (Value, bool) {
